@@ -920,7 +920,7 @@ def forward_start(ctx, block):
         d = I.EuropeanForwardStartOption(p, strike=block["strike"], maturity=M, start=start)
         d.simulate(n_paths=n_paths)
         S = p.spot
-        ctx.tick(1, nontrivial=1 if (form != "k*dt" and sform != "on_grid") else 0)
+        ctx.tick(1, nontrivial=1 if ((form != "k*dt" and sform != "on_grid") or "rounds" in sform) else 0)
         if tuple(S.shape) != (n_paths, T):
             continue    # grid_steps' business
         pay = d.payoff()
@@ -933,12 +933,36 @@ def forward_start(ctx, block):
             off = (used[0] - idx) if len(used) == 1 else None
             c = f"strike_fixed_{off:+d}_steps_from_floor_start_over_dt" if off is not None else "payoff_not_on_grid"
             c += "_integer_ratio" if R.expected_points(M, dt)[1] == "integer" else "_noninteger_ratio"
+            if "rounds_below" in sform:
+                c += "_start_quotient_rounds_below_integer"
+            elif "rounds_above" in sform:
+                c += "_start_quotient_rounds_above_integer"
             ctx.violation("EuropeanForwardStartOption.payoff", c,
                           f"EuropeanForwardStartOption(dt={dt!r}, maturity={M!r} [{form}, k={k}], start={start!r} [{sform}], "
                           f"strike={block['strike']}): grid of T={T} points, start/dt = {float(Fraction(start) / Fraction(dt))!r} so the "
                           f"strike is fixed at index {idx}; payoff {pay.tolist()} != max(S[-1]/S[{idx}] - K, 0) = {exp.tolist()}"
                           + (f" (it equals the payoff for index {used[0]})" if len(used) == 1 else ""),
                           observed=pay.tolist(), expected=exp.tolist(), block=mini)
+
+
+def sensitive_start_cases(dts, J):
+    """start = j*dt, j/den, decimal literal whose float quotient start/dt is NOT exactly j (rounds below or above);
+    maturity two steps later."""
+    out = []
+    for (label, dt, den, lit) in dts:
+        seen = set()
+        for j in range(1, J + 1):
+            forms = [("j*dt", j * dt)]
+            if den is not None:
+                forms.append(("j/den", j / den))
+            if lit is not None:
+                forms.append(("literal", float(Decimal(lit) * j)))
+            for form, st in forms:
+                if st in seen or st / dt == j:
+                    continue
+                seen.add(st)
+                out.append([(j + 2) * dt, dt, "k*dt", j + 2, st, f"{form}_quotient_rounds_{'below' if st / dt < j else 'above'}_{j}"])
+    return out
 
 
 def forward_start_cases(pairs, jmax):
@@ -1544,6 +1568,21 @@ def run(ctx):
         cases = (slow_pairs if ctx.quick else all_pairs) if kind == "brownian" else small_pairs
         for ch in _chunks(cases, 400):
             blocks.append(("grid_steps", {"primary": kind, "route": "two_underliers", "n_paths": 2, "cases": ch}))
+    # boundary: maturity / time horizon exactly 0 -> ceil(0) + 1 = 1 time point (RoughBergomiStock raises at one time
+    # point on the unchanged tree - finding #9, C11's - and is exempt)
+    zero_cases = [[0.0, d_[1], "zero", 0] for d_ in dts]
+    for kind in PRIMARIES:
+        if kind == "rough_bergomi":
+            continue
+        for route in ["own"] + DERIVS + ["two_underliers"]:
+            for n_paths, dtype in ((2, "float64"), (1, "default")):
+                if ctx.quick and dtype == "default" and route not in ("own", "european"):
+                    continue
+                blocks.append(("grid_steps", {"primary": kind, "route": route, "n_paths": n_paths, "dtype": dtype,
+                                              "cases": zero_cases}))
+    for route in market.OPTION_KINDS:
+        for dtype in ("float64", "float32"):
+            blocks.append(("ttm", {"primary": "brownian", "route": route, "n_paths": 2, "dtype": dtype, "cases": zero_cases}))
     # float32 instruments: the step count must not depend on the dtype
     for ch in _chunks(all_pairs, 400):
         blocks.append(("grid_steps", {"primary": "brownian", "route": "own", "n_paths": 1, "dtype": "float32", "cases": ch}))
@@ -1648,6 +1687,9 @@ def run(ctx):
 
     # forward start: strike fixed at floor(start/dt) also when the grid overshoots the maturity
     fs_cases = forward_start_cases(small_pairs if ctx.quick else [c for c in all_pairs if c[3] <= 40], ctx.pick(4, 12))
+    fs_sens = sensitive_start_cases(dts, ctx.pick(60, 400))
+    ctx.add("forward_start_rounding_sensitive_starts", len(fs_sens))
+    fs_cases = fs_cases + fs_sens
     ctx.add("forward_start_cases", len(fs_cases))
     for prim, dtype, strike in (("brownian", "float64", 1.0), ("brownian", "float32", 0.875), ("merton", "float64", 1.0)):
         if ctx.quick and prim != "brownian":
